@@ -175,3 +175,48 @@ def div_monomial(p, q):
             if dm[name] == 0: del dm[name]
         out[tuple(sorted(dm.items()))] = c / cq
     return Poly(p.R, out)
+
+# ------------------------------------------------------------------------------------------------
+class RatFunc:
+    """num/den over a Ring (den is never the zero polynomial; denominators are assumed non-zero by the harness' class assumptions, which are listed)"""
+    __slots__ = ('n', 'd')
+    def __init__(s, n, d=None):
+        s.n = n; s.d = d if d is not None else n.R.const(1)
+    def __add__(s, o): return RatFunc(s.n * o.d + o.n * s.d, s.d * o.d).cancel() if not _same_poly(s.d, o.d) else RatFunc(s.n + o.n, s.d)
+    def __sub__(s, o): return s + (-o)
+    def __neg__(s): return RatFunc(-s.n, s.d)
+    def __mul__(s, o): return RatFunc(s.n * o.n, s.d * o.d).cancel()
+    def __truediv__(s, o): return RatFunc(s.n * o.d, s.d * o.n).cancel()
+    def is_zero(s): return s.n.is_zero()
+    def cancel(s):
+        """cheap cancellation: common monomial factors and equal num/den"""
+        if s.d.is_const() and not s.d.is_zero():
+            c = s.d.t[()]
+            return RatFunc(s.n.scale(1 / c)) if c != 1 else s
+        if len(s.d.t) == 1:
+            q = div_monomial(s.n, s.d)
+            if q is not None: return RatFunc(q)
+        return s
+    def to_z3(s):
+        return s.n.to_z3() if (s.d.is_const() and s.d.t.get((), 0) == 1) else s.n.to_z3() / s.d.to_z3()
+
+def _same_poly(a, b): return a.t == b.t
+
+def rat_from_z3(R, e, cache=None):
+    """z3 real term with divisions -> RatFunc"""
+    cache = {} if cache is None else cache
+    k = e.get_id()
+    if k in cache: return cache[k]
+    if z3.is_div(e): r = rat_from_z3(R, e.arg(0), cache) / rat_from_z3(R, e.arg(1), cache)
+    elif z3.is_add(e):
+        r = RatFunc(R.const(0))
+        for c in e.children(): r = r + rat_from_z3(R, c, cache)
+    elif z3.is_mul(e):
+        r = RatFunc(R.const(1))
+        for c in e.children(): r = r * rat_from_z3(R, c, cache)
+    elif z3.is_sub(e):
+        ch = e.children(); r = rat_from_z3(R, ch[0], cache)
+        for c in ch[1:]: r = r - rat_from_z3(R, c, cache)
+    elif z3.is_app(e) and e.decl().kind() == z3.Z3_OP_UMINUS: r = -rat_from_z3(R, e.arg(0), cache)
+    else: r = RatFunc(from_z3(R, e))
+    cache[k] = r; return r
